@@ -15,6 +15,7 @@ type pspec struct {
 	gun               string
 	fail              string
 	slow              string
+	ek                string // "" (plain errors) | "dl" (errors caused by the component's own context.DeadlineExceeded)
 }
 
 func basePool() pspec {
@@ -22,8 +23,12 @@ func basePool() pspec {
 }
 
 func (p pspec) String() string {
-	return fmt.Sprintf("inst:%d,ammo:%d,shots:%d,per:%d,prov:%s,agg:%s,gun:%s,fail:%s,slow:%s",
+	s := fmt.Sprintf("inst:%d,ammo:%d,shots:%d,per:%d,prov:%s,agg:%s,gun:%s,fail:%s,slow:%s",
 		p.inst, p.ammo, p.shots, p.per, p.prov, p.agg, p.gun, p.fail, p.slow)
+	if p.ek != "" {
+		s += ",ek:" + p.ek
+	}
+	return s
 }
 
 func line(cancel string, rep int, pools ...pspec) string {
@@ -100,6 +105,23 @@ func systematic() []planT {
 	}
 	add("none", 0, with(func(p *pspec) { p.fail = "panic@1"; p.prov = "late.err" }))
 
+	// the same faults with errors whose CAUSE is a context-kind error that is not the engine's (the component's own
+	// deadline): errutil.IsCtxError must compare with the error of the engine's context, not with "some context error"
+	for _, pos := range []string{"pre", "mid1", "end", "late"} {
+		add("none", 0, with(func(p *pspec) { p.prov = pos + ".err"; p.ek = "dl" }))
+	}
+	for _, pos := range []string{"pre", "mid1", "late"} {
+		add("none", 0, with(func(p *pspec) { p.agg = pos + ".err"; p.ek = "dl" }))
+	}
+	add("none", 0, with(func(p *pspec) { p.prov = "late.err"; p.ek = "dl"; p.inst = 1; p.ammo = 1; p.shots = 1 }))
+	add("none", 0, with(func(p *pspec) { p.agg = "late.err"; p.ek = "dl"; p.inst = 1; p.ammo = 1; p.shots = 1; p.per = 0 }))
+	for _, f := range []string{"newgun@0", "newgun@1", "newgun@2", "bind@1", "bind@3", "warmup", "sched@1", "sched@2"} {
+		add("none", 0, with(func(p *pspec) { p.fail = f; p.inst = 3; p.ek = "dl" }))
+	}
+	// ... and the context's own error wrapped by the component (errors.Cause must be used): still a clean end
+	add("none", 0, with(func(p *pspec) { p.prov = "late.ctxw"; p.agg = "late.ctxw" }))
+	add("none", 0, with(func(p *pspec) { p.prov = "late.ctxw"; p.inst = 1; p.ammo = 1; p.shots = 1 }))
+
 	// external cancel at every phase, clean and with a failing component
 	for _, c := range []string{"pre", "warm", "bind", "shot1", "shot2", "drain", "after"} {
 		for _, per := range []int{0, 1} {
@@ -161,13 +183,16 @@ func randomPlan(r *rand.Rand) planT {
 		case 0:
 			p.prov = []string{"pre", "mid0", "mid1", "mid2", "end", "late"}[r.Intn(6)] + ".err"
 		case 1:
-			p.prov = []string{"end.nil", "late.ctx", "late.nil"}[r.Intn(3)]
+			p.prov = []string{"end.nil", "late.ctx", "late.nil", "late.ctxw"}[r.Intn(4)]
 		}
 		switch r.Intn(5) {
 		case 0:
 			p.agg = []string{"pre", "mid1", "mid2", "late"}[r.Intn(4)] + ".err"
 		case 1:
-			p.agg = "late.ctx"
+			p.agg = []string{"late.ctx", "late.ctxw"}[r.Intn(2)]
+		}
+		if r.Intn(4) == 0 {
+			p.ek = "dl"
 		}
 		if r.Intn(3) == 0 {
 			var fs []string
@@ -255,6 +280,10 @@ func class(input, obs string) string {
 			case strings.HasPrefix(t, "fail:") && t != "fail:-":
 				tags = append(tags, t)
 			case strings.HasPrefix(t, "slow:") && t != "slow:-":
+				tags = append(tags, t)
+			case strings.HasPrefix(t, "ek:") && t != "ek:plain":
+				tags = append(tags, t)
+			case strings.HasSuffix(t, ".ctxw"):
 				tags = append(tags, t)
 			}
 		}
